@@ -370,6 +370,14 @@ def cmdSparseOps (a : Args) : String :=
         | (.data b eof, s') => (s', saved, out ++ ["d:" ++ toHex b ++ (if eof then ":eof" else "")], down)
         | (.err, s') => (s', saved, out ++ ["x"], down)
       | _ => (s, saved, out ++ ["bad-op"], down)
+    else if op.startsWith "M" then
+      -- a read request on the sparse mount's file node
+      match ((op.drop 1).toString).splitOn ":" with
+      | [off, n] =>
+        match s.mountRead fetch (off.toNat?.getD 0) (n.toNat?.getD 0) with
+        | (some b, s') => (s', saved, out ++ ["m:" ++ toHex b], down)
+        | (none, s') => (s', saved, out ++ ["m:EIO"], down)
+      | _ => (s, saved, out ++ ["bad-op"], down)
     else if op == "S" then (s, some s.saveState, out ++ ["s"], down)
     else if op == "D" then (s, saved, out ++ ["dn"], true)
     else if op == "U" then (s, saved, out ++ ["up"], false)
